@@ -124,7 +124,7 @@ def run(ctx, chk):
     nstr = 0
     shown = 0
     try:
-        for r, lim, pz, u8 in sx.string_cases():
+        for r, lim, pz, u8 in sx.string_cases(ctx):
             inst = "string(bytes left=%d, limit=%s, first NUL at %s, utf8 %s)" % (r, lim, pz, "valid" if u8 is True else ("valid, non-zero bytes after the NUL" if u8 else "invalid"))
             out = sx.evaluate(ctx, "string", r, lim, pz, u8 is not False, padded=(u8 != "unpadded"))
             nstr += 1
